@@ -8,9 +8,12 @@ package nodenumaresource
 import (
 	"context"
 	"encoding/json"
+	"flag"
 	"fmt"
+	"io"
 	"sort"
 	"strings"
+	"sync"
 	"testing"
 	"time"
 
@@ -19,6 +22,7 @@ import (
 	metav1 "k8s.io/apimachinery/pkg/apis/meta/v1"
 	"k8s.io/apimachinery/pkg/types"
 	"k8s.io/client-go/tools/cache"
+	"k8s.io/klog/v2"
 	fwktype "k8s.io/kube-scheduler/framework"
 	"k8s.io/kubernetes/pkg/scheduler/framework"
 	"pgregory.net/rapid"
@@ -662,6 +666,7 @@ func c19NewReservation(pod *corev1.Pod, idx int) *schedulingv1alpha1.Reservation
 // ---------------------------------------------------------------- (1) histories through the real plugin, cut anywhere, replayed
 
 func TestVerifC19NUMAReplay(t *testing.T) {
+	c19Silence()
 	rec := vk.New(t, "C19", "numaReplay")
 	ctx := context.Background()
 	rapid.Check(t, func(t *rapid.T) {
@@ -1024,5 +1029,182 @@ func TestVerifC19NUMAReplay(t *testing.T) {
 			c.NonTrivial(e.String(), hist)
 		}
 		c.Sample(map[string]any{"env": e.String(), "history": hist, "crashPointsChecked": checks, "persistedAtEnd": c19Persisted(persisted)})
+	})
+}
+
+// ---------------------------------------------------------------- (2) any allocation value -> pre-bind encoding -> informer decoding
+
+var (
+	c19BigOnce sync.Once
+	c19BigTopo *CPUTopology
+)
+
+// TestVerifC19NUMAPersistDecode pushes allocation values the history test reaches rarely (cpu ids up to 4095, many
+// ranges, zero and sub-unit NUMA amounts, non-contiguous NUMA ids) through the plugin's own pre-bind encoding and the
+// real event handler, and compares what the fresh ledger holds for the pod with the value that went in.
+func TestVerifC19NUMAPersistDecode(t *testing.T) {
+	c19Silence()
+	rec := vk.New(t, "C19", "numaPersistDecode")
+	ctx := context.Background()
+	c19BigOnce.Do(func() { c19BigTopo = c19BuildTopo(2, 2, 128, 8) }) // 4096 cpus, 4 NUMA nodes; read-only, shared by all cases
+	rapid.Check(t, func(t *rapid.T) {
+		c := rec.Begin()
+		defer c.End()
+		e := &c19Env{Sockets: 2, NodesPerSocket: 2, CoresPerNode: 128, Threads: 8, MaxRef: rapid.IntRange(1, 2).Draw(t, "maxRefCount"),
+			Reserved: cpuset.NewCPUSet(), MemPerNode: 1 << 40, DefaultBind: schedulingconfig.CPUBindPolicyFullPCPUs, NUMAScoring: string(schedulingconfig.LeastAllocated), topo: c19BigTopo}
+		e.node = &corev1.Node{}
+		e.node.Name = c19Node
+		tom := NewTopologyOptionsManager()
+		e.deliverTopology(tom)
+		plg := e.newPlugin(t, tom, e.newManager(tom))
+
+		// the value
+		b := cpuset.NewCPUSetBuilder()
+		switch rapid.IntRange(0, 5).Draw(t, "cpusetKind") {
+		case 0:
+		case 1:
+			b.Add(rapid.IntRange(0, 4095).Draw(t, "one"))
+		case 2:
+			a := rapid.IntRange(0, 4000).Draw(t, "from")
+			for i, n := a, rapid.IntRange(2, 95).Draw(t, "len"); n > 0; i, n = i+1, n-1 {
+				b.Add(i)
+			}
+		default:
+			base := rapid.SampledFrom([]int{0, 0, 60, 1000, 4032}).Draw(t, "base")
+			for i, on := range rapid.SliceOfN(rapid.Bool(), 1, 64).Draw(t, "mask") {
+				if on {
+					b.Add(base + i)
+				}
+			}
+		}
+		alloc := &PodAllocation{UID: "uid-x", Namespace: "default", Name: "x", CPUSet: b.Result()}
+		alloc.CPUExclusivePolicy = schedulingconfig.CPUExclusivePolicy(rapid.SampledFrom(c19ExclLits).Draw(t, "exclusive"))
+		node := 0
+		for i, n := 0, rapid.IntRange(0, 4).Draw(t, "numaEntries"); i < n && node < 4; i++ {
+			node += rapid.IntRange(0, 1).Draw(t, "numaGap")
+			if node >= 4 {
+				break
+			}
+			rl := corev1.ResourceList{}
+			for k, m := 0, rapid.IntRange(0, 3).Draw(t, "resources"); k < m; k++ {
+				name := rapid.SampledFrom([]corev1.ResourceName{corev1.ResourceCPU, corev1.ResourceMemory, "hugepages-2Mi", extension.BatchCPU}).Draw(t, "resName")
+				switch rapid.IntRange(0, 4).Draw(t, "qKind") {
+				case 0:
+					rl[name] = *resource.NewQuantity(0, resource.DecimalSI)
+				case 1:
+					rl[name] = *resource.NewMilliQuantity(rapid.Int64Range(1, 256000).Draw(t, "milli"), resource.DecimalSI)
+				case 2:
+					rl[name] = *resource.NewQuantity(rapid.Int64Range(1, 1<<50).Draw(t, "bytes"), resource.BinarySI)
+				case 3:
+					rl[name] = resource.MustParse(rapid.SampledFrom([]string{"1.5Gi", "0.5", "100m", "1e3", "3k", "16Gi", "1"}).Draw(t, "lit"))
+				default:
+					rl[name] = *resource.NewQuantity(rapid.Int64Range(1, 512).Draw(t, "units"), resource.DecimalSI)
+				}
+			}
+			alloc.NUMANodeResources = append(alloc.NUMANodeResources, NUMANodeResource{Node: node, Resources: rl})
+			node++
+		}
+		asResv := rapid.IntRange(0, 3).Draw(t, "asReservation") == 0
+		viaAPI := rapid.Bool().Draw(t, "viaAPI")
+
+		// the object the scheduling cycle ran on: an LSR pod whose resource-spec names the exclusive policy (that is
+		// where PreFilter took it from)
+		pod := &corev1.Pod{}
+		pod.Name, pod.Namespace, pod.UID = "x", "default", "uid-x"
+		pod.Labels = map[string]string{extension.LabelPodQoS: string(extension.QoSLSR)}
+		spec := &extension.ResourceSpec{PreferredCPUExclusivePolicy: extension.CPUExclusivePolicy(alloc.CPUExclusivePolicy)}
+		state := &preFilterState{requestCPUBind: !alloc.CPUSet.IsEmpty(), allocation: alloc, numCPUsNeeded: alloc.CPUSet.Size(),
+			preferredCPUBindPolicy: schedulingconfig.CPUBindPolicyFullPCPUs, preferredCPUExclusivePolicy: alloc.CPUExclusivePolicy,
+			requests: corev1.ResourceList{corev1.ResourceCPU: *resource.NewQuantity(int64(alloc.CPUSet.Size()), resource.DecimalSI)}}
+		cs := framework.NewCycleState()
+		cs.Write(stateKey, state)
+		var obj c19Obj
+		var st *fwktype.Status
+		if asResv {
+			r := c19NewReservation(pod, 0)
+			r.UID = "uid-x"
+			_ = extension.SetResourceSpec(r, spec) // kept on the Reservation itself (see the history test for the template case)
+			st = plg.PreBindReservation(ctx, cs, r, c19Node)
+			r.Status.NodeName, r.Status.Phase = c19Node, schedulingv1alpha1.ReservationAvailable
+			obj = c19Obj{Resv: r}
+		} else {
+			_ = extension.SetResourceSpec(pod, spec)
+			p := pod.DeepCopy()
+			st = plg.PreBind(ctx, cs, p, c19Node)
+			p.Spec.NodeName = c19Node
+			obj = c19Obj{Pod: p}
+		}
+		if !st.IsSuccess() {
+			c.Violation(t, "numa-codec:prebind-error", "pre-bind of [%s] failed: %s", c19AllocStr(alloc), st.Message())
+			return
+		}
+		if viaAPI {
+			obj = c19ViaAPI(t, obj)
+		}
+		fresh := e.newManager(tom)
+		c19NewHandlers(fresh).add(obj)
+		got, ok := fresh.GetNodeAllocation(c19Node).allocatedPods["uid-x"]
+
+		ranges := strings.Count(alloc.CPUSet.String(), ",") + 1
+		hasZero := false
+		for _, r := range alloc.NUMANodeResources {
+			for _, q := range r.Resources {
+				if q.IsZero() {
+					hasZero = true
+				}
+			}
+		}
+		c.ClassIf(alloc.CPUSet.IsEmpty(), "cpuset-empty")
+		c.ClassIf(alloc.CPUSet.Size() == 1, "cpuset-single-id")
+		c.ClassIf(ranges >= 3, "cpuset>=3-ranges")
+		c.ClassIf(len(alloc.NUMANodeResources) >= 2, "numa>=2")
+		c.ClassIf(len(alloc.NUMANodeResources) > 0 && alloc.NUMANodeResources[0].Node != 0, "numa-first-id-not-0")
+		c.ClassIf(hasZero, "numa-zero-amount")
+		c.ClassIf(asResv, "object-reservation")
+		c.ClassIf(!c19Holds(*alloc), "holds-nothing")
+		if ranges >= 2 || len(alloc.NUMANodeResources) >= 2 {
+			c.NonTrivial(c19AllocStr(alloc), asResv, viaAPI)
+		}
+		c.Sample(map[string]any{"allocation": c19AllocStr(alloc), "persisted": obj.String()})
+
+		if !c19Holds(*alloc) {
+			if ok && c19Holds(got) {
+				c.Violation(t, "numa-codec:invented", "wrote [%s], fresh ledger holds [%s]; %s", c19AllocStr(alloc), c19AllocStr(&got), obj)
+			}
+			return
+		}
+		if !ok {
+			c.Violation(t, "numa-codec:lost", "wrote [%s], the fresh ledger has no entry; %s", c19AllocStr(alloc), obj)
+			return
+		}
+		if !got.CPUSet.Equals(alloc.CPUSet) {
+			c.Violation(t, "numa-codec:cpuset-differs", "wrote cpuset %q read %q; %s", alloc.CPUSet.String(), got.CPUSet.String(), obj)
+			return
+		}
+		ma, mb := c19NUMAMap(*alloc), c19NUMAMap(got)
+		for n := 0; n < 8; n++ {
+			if d := c19RLDiff(ma[n], mb[n]); d != "" {
+				c.Violation(t, "numa-codec:numa-amount-differs", "NUMA %d %s; wrote [%s] read [%s]; %s", n, d, c19AllocStr(alloc), c19AllocStr(&got), obj)
+				return
+			}
+		}
+		if !alloc.CPUSet.IsEmpty() && c19NormExcl(alloc.CPUExclusivePolicy) != c19NormExcl(got.CPUExclusivePolicy) {
+			c.Violation(t, "numa-codec:exclusive-policy-differs", "wrote %q read %q; %s", alloc.CPUExclusivePolicy, got.CPUExclusivePolicy, obj)
+			return
+		}
+	})
+}
+
+var c19Quiet sync.Once
+
+// keep the captured output small (the allocator warns on every empty allocation)
+func c19Silence() {
+	c19Quiet.Do(func() {
+		fs := flag.NewFlagSet("c19-klog", flag.ContinueOnError)
+		klog.InitFlags(fs)
+		_ = fs.Set("logtostderr", "false")
+		_ = fs.Set("alsologtostderr", "false")
+		_ = fs.Set("stderrthreshold", "FATAL")
+		klog.SetOutput(io.Discard)
 	})
 }
